@@ -14,6 +14,7 @@ try() { name=$1; commit=$2; shift 2
   git reset -q --hard HEAD
 }
 if [ -n "$ONLY" ]; then eval "$ONLY"; echo DONE >> $L; exit 0; fi
+try F9a 277f98b C12 C15
 try F10 af89995 C13
 try F8 159af49 C18
 try F5b 09f9901 C18
